@@ -421,6 +421,7 @@ def corruptions(tr, rng):
 
 # ------------------------------------------------------------------ the check
 def run(ctx):
+    ctx.liveness("PepXml", unfair_control=not ctx.quick)      # termination under weak fairness (PepXml_live.cfg)
     rng = np.random.default_rng(ctx.seed)
     # ---------------- (M) ----------------
     ctx.model_check("PepXml", "PepXml_quick.cfg",
